@@ -418,6 +418,7 @@ type MTxn struct {
 	changed  map[int64]*rowChange // committed row id -> change
 	inserted map[string][]*MRow   // table -> rows inserted by this txn (IDs assigned at insert)
 	Writes   int
+	Stmts    int // statements applied
 	// canonical committed images of the committed rows this transaction changed or deleted
 	TouchedBefore []string
 }
@@ -454,6 +455,7 @@ func (x *MTxn) view(t *MTable) []viewRow {
 // Apply evaluates the statement against the transaction's view, records its writes in the
 // overlay, and returns the rows a SELECT returns (in the written column order).
 func (x *MTxn) Apply(s *Stmt) (rows [][]any, err error) {
+	x.Stmts++
 	if s.Kind == "select" && s.Join != nil {
 		return x.applyJoin(s)
 	}
